@@ -511,6 +511,8 @@ func constSet(r *rand.Rand, t byte) []v128 {
 
 // ---- execution -------------------------------------------------------------------------------
 
+const maxPosShift = 9
+
 type placement struct {
 	name   string
 	consts []v128 // operands baked in (nil = taken at run time)
@@ -595,6 +597,23 @@ func buildModule(o *opInfo, imm []byte, constTuples [][]v128) []byte {
 		m.AddFunc(wb.Func{Params: o.params, Results: []byte{wb.I32}, Export: "k_brtab", Body: wb.Cat([]byte{wasm.OpcodeBlock, 0x40, wasm.OpcodeBlock, 0x40}, pre, []byte{wasm.OpcodeBrTable, 1, 0, 1, wasm.OpcodeEnd}, wb.I32Const(0), []byte{wasm.OpcodeReturn, wasm.OpcodeEnd}, wb.I32Const(1))})
 		// address use: result + static offset 1 must trap for 0xffffffff and beyond the single page
 		m.AddFunc(wb.Func{Params: o.params, Results: []byte{wb.I32}, Export: "q_addr", Body: wb.Cat(pre, wb.MemArg(wasm.OpcodeI32Load8U, 0, 1))})
+	}
+	// "position" placements: k dummy parameters of the first operand's type precede the operands, so that the
+	// operands arrive in (and the instruction is encoded with) each register of the argument sequence in turn - what an
+	// encoding does with a register depends on WHICH register it is (byte registers that need a REX prefix, r12/r13
+	// in addressing forms, the high xmm registers)
+	for k := 1; k <= maxPosShift; k++ {
+		ps := make([]byte, 0, k+len(o.params))
+		for j := 0; j < k; j++ {
+			ps = append(ps, o.params[0])
+		}
+		ps = append(ps, o.params...)
+		var b []byte
+		for i := range o.params {
+			b = append(b, wb.LocalGet(uint32(k+i))...)
+		}
+		b = append(b, opBody(o, imm)...)
+		m.AddFunc(wb.Func{Params: ps, Results: []byte{o.result}, Body: b, Export: fmt.Sprintf("pos%d", k)})
 	}
 	nop := m.AddFunc(wb.Func{})
 	{
@@ -1176,6 +1195,18 @@ func runOp(r *rand.Rand, o *opInfo, engines []engine, budget int) {
 			}
 			if k%3 == 0 {
 				check("spill+merge", tup, "sp", append(flat(o.params, tup), 0), false)
+			}
+			{
+				sh := 1 + k%maxPosShift
+				var args []uint64
+				dummy := v128{0x5a5a5a5a5a5a5a5a, 0xa5a5a5a5a5a5a5a5}
+				if o.params[0] == wb.I32 || o.params[0] == wb.F32 {
+					dummy = v128{0x5a5a5a5a, 0}
+				}
+				for j := 0; j < sh; j++ {
+					args = append(args, flat(o.params[:1], []v128{dummy})...)
+				}
+				check(fmt.Sprintf("position+%d", sh), tup, fmt.Sprintf("pos%d", sh), append(args, flat(o.params, tup)...), false)
 			}
 			if k%5 == 0 {
 				args := flat(o.params, tup)
